@@ -5,6 +5,7 @@ from ..runner import Prop, Group
 from . import irv_common as I
 
 class C03(Prop):
+    layouts = True
     translators = ['flow']   # ford_fulkerson / dfs_path (Irving's closed-subset step) regenerated from flow.py on every run
     pid = "C03"
     sources = ["socialchoicekit/deterministic_matching.py", "socialchoicekit/flow.py"]
